@@ -2,6 +2,7 @@
 //! any depth over a real `Matrix<i64>`.  Case language: see coq/theories/Run/RunC12.v.
 use crate::guarded;
 use crate::sx::*;
+use easy_ml::differentiation::RecordMatrix;
 use easy_ml::interop::{MatrixRefTensor, TensorRefMatrix};
 use easy_ml::matrices::views::{
     IndexRange, MatrixMut, MatrixPart, MatrixRange, MatrixRef, MatrixReverse, MatrixView, NoInteriorMutability,
@@ -11,9 +12,9 @@ use easy_ml::matrices::Matrix;
 use easy_ml::tensors::views::TensorRef;
 
 /// Type erasure for a stack of views whose depth is only known at run time: pure delegation.
-struct Erased<'a>(Box<dyn MatrixMut<i64> + 'a>);
-unsafe impl<'a> MatrixRef<i64> for Erased<'a> {
-    fn try_get_reference(&self, row: usize, column: usize) -> Option<&i64> {
+struct Erased<'a, E = i64>(Box<dyn MatrixMut<E> + 'a>);
+unsafe impl<'a, E> MatrixRef<E> for Erased<'a, E> {
+    fn try_get_reference(&self, row: usize, column: usize) -> Option<&E> {
         self.0.as_ref().try_get_reference(row, column)
     }
     fn view_rows(&self) -> usize {
@@ -22,22 +23,22 @@ unsafe impl<'a> MatrixRef<i64> for Erased<'a> {
     fn view_columns(&self) -> usize {
         self.0.as_ref().view_columns()
     }
-    unsafe fn get_reference_unchecked(&self, row: usize, column: usize) -> &i64 {
+    unsafe fn get_reference_unchecked(&self, row: usize, column: usize) -> &E {
         self.0.as_ref().get_reference_unchecked(row, column)
     }
     fn data_layout(&self) -> easy_ml::matrices::views::DataLayout {
         self.0.as_ref().data_layout()
     }
 }
-unsafe impl<'a> MatrixMut<i64> for Erased<'a> {
-    fn try_get_reference_mut(&mut self, row: usize, column: usize) -> Option<&mut i64> {
+unsafe impl<'a, E> MatrixMut<E> for Erased<'a, E> {
+    fn try_get_reference_mut(&mut self, row: usize, column: usize) -> Option<&mut E> {
         self.0.as_mut().try_get_reference_mut(row, column)
     }
-    unsafe fn get_reference_unchecked_mut(&mut self, row: usize, column: usize) -> &mut i64 {
+    unsafe fn get_reference_unchecked_mut(&mut self, row: usize, column: usize) -> &mut E {
         self.0.as_mut().get_reference_unchecked_mut(row, column)
     }
 }
-unsafe impl<'a> NoInteriorMutability for Erased<'a> {}
+unsafe impl<'a, E> NoInteriorMutability for Erased<'a, E> {}
 
 #[derive(Clone)]
 enum Wrapper {
@@ -111,18 +112,18 @@ enum Refused {
 
 /// Cross-checks of the intermediate TensorRefMatrix against the matrix view it wraps, taken
 /// before the view is moved into it.
-fn snapshot(v: &Erased) -> (usize, usize, Vec<Option<i64>>) {
+fn snapshot<E: Clone>(v: &Erased<E>) -> (usize, usize, Vec<Option<E>>) {
     let (rows, columns) = (v.view_rows(), v.view_columns());
     let mut cells = vec![];
     for r in 0..=rows.min(8) {
         for c in 0..=columns.min(8) {
-            cells.push(v.try_get_reference(r, c).copied());
+            cells.push(v.try_get_reference(r, c).cloned());
         }
     }
     (rows, columns, cells)
 }
 
-fn tensor_agrees<S: TensorRef<i64, 2>>(t: &S, names: [&'static str; 2], snap: &(usize, usize, Vec<Option<i64>>)) -> bool {
+fn tensor_agrees<E: Clone + PartialEq, S: TensorRef<E, 2>>(t: &S, names: [&'static str; 2], snap: &(usize, usize, Vec<Option<E>>)) -> bool {
     let (rows, columns, cells) = snap;
     if t.view_shape() != [(names[0], *rows), (names[1], *columns)] {
         return false;
@@ -130,7 +131,7 @@ fn tensor_agrees<S: TensorRef<i64, 2>>(t: &S, names: [&'static str; 2], snap: &(
     let mut k = 0;
     for r in 0..=(*rows).min(8) {
         for c in 0..=(*columns).min(8) {
-            if t.get_reference([r, c]).copied() != cells[k] {
+            if t.get_reference([r, c]).cloned() != cells[k] {
                 return false;
             }
             k += 1;
@@ -139,7 +140,7 @@ fn tensor_agrees<S: TensorRef<i64, 2>>(t: &S, names: [&'static str; 2], snap: &(
     t.get_reference([usize::MAX, 0]).is_none() && t.get_reference([0, usize::MAX]).is_none()
 }
 
-fn wrap<'a>(mut cur: Erased<'a>, wrappers: &[Wrapper]) -> Result<Erased<'a>, Refused> {
+fn wrap<'a, E: Clone + PartialEq + 'a>(mut cur: Erased<'a, E>, wrappers: &[Wrapper]) -> Result<Erased<'a, E>, Refused> {
     for (i, w) in wrappers.iter().enumerate() {
         cur = match *w {
             Wrapper::Range(r0, rl, c0, cl) => match i % 3 {
@@ -311,6 +312,75 @@ fn write_through<S: MatrixMut<i64> + NoInteriorMutability>(view: &mut MatrixView
     }
 }
 
+/// Size and probes through the shared API only (for the shorthand constructors).
+fn read_all<S: MatrixRef<i64>>(view: &MatrixView<i64, S>, probes: &[(usize, usize)]) -> (Sx, Vec<Sx>) {
+    let (rows, columns) = view.size();
+    let ps = probes
+        .iter()
+        .map(|&(r, c)| {
+            let a = guarded(|| view.try_get_reference(r, c).copied());
+            let b = guarded(|| view.get(r, c));
+            match a {
+                Some(v) if v == b => probe_sx(Some(v)),
+                _ => inconsistent(1270),
+            }
+        })
+        .collect();
+    (l(vec![z(rows), z(columns)]), ps)
+}
+
+/// The second level through the MatrixView shorthands range / reverse.
+fn shorthand_second<S: MatrixRef<i64>>(v1: &MatrixView<i64, S>, w2: &Wrapper, probes: &[(usize, usize)]) -> Option<(Sx, Vec<Sx>)> {
+    Some(match *w2 {
+        Wrapper::Range(r0, rl, c0, cl) => read_all(&v1.range((r0, rl), (c0, cl)), probes),
+        Wrapper::StdRange(a, b, c, d) => read_all(&v1.range(a..b, c..d), probes),
+        Wrapper::Reverse(rows, columns) => read_all(&v1.reverse(Reverse { rows, columns }), probes),
+        _ => return None,
+    })
+}
+
+/// Stacks of one or two ranges / reversals built with Matrix::{range, reverse}(_mut, _owned) and
+/// MatrixView::{range, reverse}: every variant must show what the explicit constructors show.
+fn shorthands(m: &Matrix<i64>, ws: &[Wrapper], probes: &[(usize, usize)]) -> Vec<(Sx, Vec<Sx>)> {
+    let mut out = vec![];
+    if ws.is_empty() || ws.len() > 2 {
+        return out;
+    }
+    let rest = &ws[1..];
+    macro_rules! finish {
+        ($v:expr) => {{
+            let v = $v;
+            if rest.is_empty() {
+                out.push(read_all(&v, probes));
+            } else if let Some(o) = shorthand_second(&v, &rest[0], probes) {
+                out.push(o);
+            }
+        }};
+    }
+    match ws[0] {
+        Wrapper::Range(r0, rl, c0, cl) => {
+            finish!(m.range((r0, rl), (c0, cl)));
+            finish!(m.clone().range_owned([r0, rl], [c0, cl]));
+            let mut copy = m.clone();
+            finish!(copy.range_mut(IndexRange::new(r0, rl), IndexRange::new(c0, cl)));
+        }
+        Wrapper::StdRange(a, b, c, d) => {
+            finish!(m.range(a..b, c..d));
+            finish!(m.clone().range_owned(a..b, c..d));
+            let mut copy = m.clone();
+            finish!(copy.range_mut(a..b, c..d));
+        }
+        Wrapper::Reverse(rows, columns) => {
+            finish!(m.reverse(Reverse { rows, columns }));
+            finish!(m.clone().reverse_owned(Reverse { rows, columns }));
+            let mut copy = m.clone();
+            finish!(copy.reverse_mut(Reverse { rows, columns }));
+        }
+        _ => {}
+    }
+    out
+}
+
 fn dump(m: &Matrix<i64>) -> Sx {
     l(m.row_major_iter().map(z).collect())
 }
@@ -362,6 +432,31 @@ fn view_case(args: &[Sx]) -> Sx {
     };
     if dump(&m) != dump(&m0) {
         return inconsistent(1230);
+    }
+    if let Leaf::Matrix = lf {
+        for (sz, ps2) in shorthands(&m0, &ws, &probes) {
+            if sz != size || ps2 != ps {
+                return inconsistent(1271);
+            }
+        }
+    }
+    // MatrixMap (crate private) is only reachable through Display for RecordMatrix: the same
+    // stack over a matrix of (number, index) pairs, shown through the mapped view, must print
+    // what the stack over the plain numbers prints (same size, same cells in the same places)
+    if let Leaf::Matrix = lf {
+        let pairs: Vec<(i64, usize)> = m0.row_major_iter().enumerate().map(|(i, x)| (x, i + 1)).collect();
+        let tuple_matrix = Matrix::from_flat_row_major(m0.size(), pairs);
+        let mapped = wrap(Erased(Box::new(tuple_matrix)), &ws)
+            .map(|top| guarded(|| format!("{}", RecordMatrix::from_existing(None, MatrixView::from(top)))));
+        let plain = wrap(Erased(Box::new(m0.clone())), &ws).map(|top| guarded(|| format!("{}", MatrixView::from(top))));
+        match (mapped, plain) {
+            (Ok(a), Ok(b)) => {
+                if a != b {
+                    return inconsistent(1280);
+                }
+            }
+            _ => return inconsistent(1281),
+        }
     }
     // the same stack over an owned matrix behind the crate's own Box<dyn MatrixMut<T>>
     if let Leaf::Matrix = lf {
